@@ -466,6 +466,7 @@ Alphabet ==
                                           {<<>>, Wa, Bul \o Wa, BulBare \o Tab \o Wa, Dash3, Fence, HashA, <<"#">> \o Tab \o Wa, Gt \o Wa, Ord \o Wa, <<"1", ".">> \o Tab \o Wa, Tab \o Wa}))
     [] AlphaName = "tabs2" -> NoTrail(Cat({<<>>, GtS, Bul, Bul \o Bul, S2}, {<<>>, Tab, S1 \o Tab, S3 \o Tab, Tab \o S1}, {<<>>, Wa, Bul \o Wa, BulBare \o Tab \o Wa, Fence, Tab \o Wa, Gt \o Tab \o Wa}))
     [] AlphaName = "refs"  -> NoTrail(Cat({<<>>}, {<<>>, GtS, Bul, S2, S4}, {<<>>, Wa, DefA, DefA2, LabA, DestU, TitleT, UseA, Eq3, Dash3, HashA \o S1 \o UseA, DefB \o S1 \o TitleT}))
+    [] AlphaName = "scaled" -> {}
     [] AlphaName = "wide"  -> NoTrail(Cat({<<>>, Gt, GtS, Bul, Ord, S2, S3, S4}, {<<>>, Gt, GtS, Bul, Plus, Ord, Ord2, S1, S2, S4},
                                           {<<>>, Wa, Dash3, Eq3, Hash, HashA, Fence, Tilde, FenceInfo, BulBare}))
                               \cup {BulWide, Bul2 \o Wa, OrdP \o Wa}
@@ -477,7 +478,18 @@ vars == <<doc, st>>
 HtmlOf(stack) == Render(Fin(CloseTo(stack, 1)[1]))
 Src(ls) == Join([i \in 1..Len(ls) |-> Join(ls[i]) \o "\n"])
 
-Init == doc = <<>> /\ st = Start
+\* scaled documents (AlphaName = "scaled", MaxLines = 0): a line pattern repeated n times for every n around
+\* the sizes at which an implementation's per-line bookkeeping changes (128, 256), then a short tail whose
+\* rendering depends on what the parser remembers about the previous line (loose / tight lists, lazy lines)
+Rep(seq, n) == [i \in 1..(n * Len(seq)) |-> seq[((i - 1) % Len(seq)) + 1]]
+ScaledPatterns == {<<Wa>>, <<Bul \o Wa>>, <<GtS \o Wa>>, <<Bul \o Wa, S2 \o Bul \o Wb>>, <<Ord \o Wa>>}
+ScaledSizes == IF MaxLines = 0 THEN {42, 43, 63, 64} \cup (125..129) \cup (254..256)            \* quick
+               ELSE (20..22) \cup (40..45) \cup (60..66) \cup (120..130) \cup (250..258)         \* thorough (MaxLines = -1)
+ScaledTails == {<<<<>>, Bul \o Wa, <<>>, Bul \o Wb>>, <<<<>>, Bul \o Wa, <<>>, S2 \o Wb>>, <<<<>>, Bul \o Wa, Bul \o Wb>>,
+                <<<<>>, Ord \o Wa, S2 \o S1 \o Bul \o Wa, <<>>, S2 \o S1 \o Bul \o Wb>>, <<<<>>, GtS \o Bul \o Wa, Gt, GtS \o Bul \o Wb>>}
+ScaledDocs == {Rep(p, n) \o t : p \in ScaledPatterns, n \in ScaledSizes, t \in ScaledTails}
+Init == IF AlphaName = "scaled" THEN doc \in ScaledDocs /\ st = FeedAll(Start, doc, 1)     \* (no Next step: MaxLines <= 0)
+        ELSE doc = <<>> /\ st = Start
 Feedable == IF Sim THEN {RandomElement(Alphabet)} ELSE Alphabet
 Next == /\ Len(doc) < MaxLines
         /\ \E l \in Feedable :
